@@ -12,6 +12,12 @@ use futures::StreamExt;
 pub fn run_generic<C>(case: &Case, chan: Arc<C>, locs: LocMap, max_streams: usize) -> Vec<i64>
 where C: FullDuplexMultiChannel<ItemType = u32> + Send + Sync + 'static,
       C::DerivedItemType: AsI64 + Send {
+    run_generic_v(case, chan, locs, max_streams, None)
+}
+/// `vacant`: how many stream ids are vacant right now (only where the harness can reach the streams manager)
+pub fn run_generic_v<C>(case: &Case, chan: Arc<C>, locs: LocMap, max_streams: usize, vacant: Option<Box<dyn Fn() -> u32 + Send + Sync>>) -> Vec<i64>
+where C: FullDuplexMultiChannel<ItemType = u32> + Send + Sync + 'static,
+      C::DerivedItemType: AsI64 + Send {
     let k = case.get("k", 1) as usize;
     let chan: &'static Arc<C> = Box::leak(Box::new(chan));
     type Slot<C> = Mutex<Option<Arc<Mutex<MutinyStream<'static, u32, C, <C as FullDuplexMultiChannel>::DerivedItemType>>>>>;
@@ -23,6 +29,9 @@ where C: FullDuplexMultiChannel<ItemType = u32> + Send + Sync + 'static,
     }
     let at_park: &'static Vec<AtomicBool> = Box::leak(Box::new((0..case.progs.len()).map(|_| AtomicBool::new(false)).collect()));
     let seen: &'static Mutex<Vec<(i64, usize)>> = Box::leak(Box::new(Mutex::new(vec![])));   // (value, address of the shared payload)
+    let vacant: &'static Option<Box<dyn Fn() -> u32 + Send + Sync>> = Box::leak(Box::new(vacant));
+    // outstanding reservations of the case: k -> (address of the slot handed out by reserve_slot, value to write into it)
+    let reservations: &'static Mutex<Vec<Option<(usize, u32)>>> = Box::leak(Box::new(Mutex::new((0..64).map(|_| None).collect())));
     verif::reset(case.progs.len());
     let mut handles = vec![];
     for (tid, prog) in case.progs.iter().enumerate() {
@@ -63,6 +72,48 @@ where C: FullDuplexMultiChannel<ItemType = u32> + Send + Sync + 'static,
                         }
                     },
                     "count" => { let n = chan.running_streams_count(); ret(tid, 15, n as i64, 0) },
+                    "createv" => {
+                        // a creation that starts as soon as a stream id is vacant - possibly while the removal that vacated it is still in
+                        // progress on another thread (each look at the vacant count is a scheduling point)
+                        loop {
+                            verif::yield_point("yield", 2);
+                            if vacant.as_ref().map(|f| f()).unwrap_or(1) > 0 { break }
+                        }
+                        let (stream, id) = chan.create_stream_for_new_events();
+                        *table[id as usize].lock().unwrap() = Some(Arc::new(Mutex::new(stream)));
+                        last_created = Some(id as usize);
+                        ret(tid, 17, id as i64, 0);
+                    },
+                    "res" => {
+                        let k = op.arg(0) as usize;
+                        match chan.reserve_slot() {
+                            Some(slot) => { reservations.lock().unwrap()[k] = Some((slot as *mut u32 as usize, op.arg(1) as u32)); ret(tid, 20, k as i64, 0) },
+                            None       => ret(tid, 21, k as i64, 0),
+                        }
+                    },
+                    "sres" => {
+                        let k = op.arg(0) as usize;
+                        let r = reservations.lock().unwrap()[k];
+                        match r {
+                            Some((slot, value)) => {
+                                unsafe { std::ptr::write(slot as *mut u32, value) };
+                                if chan.try_send_reserved(unsafe { &mut *(slot as *mut u32) }) { reservations.lock().unwrap()[k] = None; ret(tid, 27, k as i64, 0) }
+                                else { ret(tid, 23, k as i64, 0) }
+                            },
+                            None => { verif::yield_point("yield", 2); ret(tid, 26, k as i64, 0) },
+                        }
+                    },
+                    "cres" => {
+                        let k = op.arg(0) as usize;
+                        let r = reservations.lock().unwrap()[k];
+                        match r {
+                            Some((slot, _)) => {
+                                if chan.try_cancel_slot_reserve(unsafe { &mut *(slot as *mut u32) }) { reservations.lock().unwrap()[k] = None; ret(tid, 24, k as i64, 0) }
+                                else { ret(tid, 25, k as i64, 0) }
+                            },
+                            None => { verif::yield_point("yield", 2); ret(tid, 26, k as i64, 0) },
+                        }
+                    },
                     "creates" => {
                         // listener creation with every shared access scheduled (C17)
                         let free = table.iter().any(|s| s.lock().unwrap().is_none());
@@ -177,15 +228,26 @@ fn arc_atomic<const N: usize, const M: usize>(case: &Case) -> Vec<i64> {
         }
         locs.cell(2, 2);
     }
-    run_generic(case, chan, locs, M)
+    let chan2 = chan.clone();
+    run_generic_v(case, chan, locs, M, Some(Box::new(move || chan2.verif_parts().0.verif_vacant_count())))
 }
 fn arc_full_sync<const N: usize, const M: usize>(case: &Case) -> Vec<i64> { run_generic(case, ChannelMultiArcFullSync::<u32, N, M>::new("c"), LocMap::new(), M) }
 fn arc_crossbeam<const N: usize, const M: usize>(case: &Case) -> Vec<i64> { run_generic(case, ChannelMultiArcCrossbeam::<u32, N, M>::new("c"), LocMap::new(), M) }
 fn ogre_arc_atomic<const N: usize, const M: usize>(case: &Case) -> Vec<i64> { run_generic(case, ChannelMultiOgreArcAtomic::<u32, N, M>::new("c"), LocMap::new(), M) }
 fn ogre_arc_full_sync<const N: usize, const M: usize>(case: &Case) -> Vec<i64> { run_generic(case, ChannelMultiOgreArcFullSync::<u32, N, M>::new("c"), LocMap::new(), M) }
 
+/// the log (mmap) Multi channel: no BUFFER_SIZE (the log only grows); its backing file is unlinked as soon as the case is over
+fn mmap_log<const N: usize, const M: usize>(case: &Case) -> Vec<i64> {
+    static SEQ: std::sync::atomic::AtomicU64 = std::sync::atomic::AtomicU64::new(0);
+    let name = format!("rm_harness_multi_{}_{}", std::process::id(), SEQ.fetch_add(1, SeqCst));
+    let chan = reactive_mutiny::multi::channels::reference::mmap_log::MmapLog::<u32, M>::new(name.clone());
+    let _ = std::fs::remove_file(format!("/tmp/{}.mmap", name));
+    run_generic(case, chan, LocMap::new(), M)
+}
+
 pub fn run(case: &Case) -> Vec<i64> {
     match case.gets("chan") {
+        "mmap_log"           => dispatch_nm!(mmap_log, case),
         "arc_atomic"         => dispatch_nm!(arc_atomic, case),
         "arc_full_sync"      => dispatch_nm!(arc_full_sync, case),
         "arc_crossbeam"      => dispatch_nm!(arc_crossbeam, case),
